@@ -1120,6 +1120,11 @@ func c11Oracle(c polCase, run polRun) error {
 			disabledBy = open
 		case msg == "# task-start":
 			inTask = true
+			if c.Mode == int(Advertise) && disabledBy != open {
+				// "disabled ... while a connection is held": the task runs on connection `open`, so its dial must have
+				// written false (a permission error on that write is tolerated, the attempt is not optional)
+				return fail("C11/autoconf-not-disabled", "the task starts on connection %d although autoconf was not disabled for it", open)
+			}
 		case strings.HasPrefix(msg, "# task-end"):
 			inTask = false
 			if c.Mode == int(Advertise) {
@@ -1127,7 +1132,6 @@ func c11Oracle(c polCase, run polRun) error {
 			}
 		}
 	}
-	_ = disabledBy
 	if open >= 0 {
 		return fail("C11/connection-leaked", "connection %d is still open when Dial returned", open)
 	}
